@@ -100,3 +100,304 @@ Section Queue.
   Proof. reflexivity. Qed.
 
 End Queue.
+
+(** * The sorted list as a map *)
+
+(** ** general facts about the comparator (no window needed) *)
+Lemma kcmp_Eq_gen w1 s1 w2 s2 : kcmp w1 s1 w2 s2 = Eq -> s1 = s2 /\ (w1 - w2) mod M32 = 0.
+Proof.
+  unfold kcmp, timerkey_cmp, wraptime_cmp, as_i32, M32. cbn [obind].
+  destruct ((w1 - w2) mod 4294967296 <? 2147483648) eqn:C.
+  - destruct (Z.compare_spec ((w1 - w2) mod 4294967296) 0) as [E|E|E]; try discriminate.
+    intros H. apply Z.compare_eq in H. split; assumption.
+  - destruct (Z.compare_spec ((w1 - w2) mod 4294967296 - 4294967296) 0) as [E|E|E]; try discriminate.
+    lia.
+Qed.
+
+Lemma kcmp_Eq_range w1 s1 w2 s2 : 0 <= w1 < M32 -> 0 <= w2 < M32 ->
+  (kcmp w1 s1 w2 s2 = Eq <-> (w1 = w2 /\ s1 = s2)).
+Proof.
+  intros H1 H2. split.
+  - intros H. apply kcmp_Eq_gen in H. destruct H as [Hs Hm]. unfold M32 in *. split; [lia|assumption].
+  - intros [-> ->]. unfold kcmp, timerkey_cmp, wraptime_cmp, as_i32. cbn [obind].
+    replace (w2 - w2) with 0 by lia. cbn. apply Z.compare_refl.
+Qed.
+
+Definition key_eq (w sl : Z) (e : entry) : Prop := kcmp w sl (e_wt e) (e_slot e) = Eq.
+
+Lemma key_eq_dec w sl e : {key_eq w sl e} + {~ key_eq w sl e}.
+Proof. unfold key_eq. destruct (kcmp w sl (e_wt e) (e_slot e)); [left; reflexivity|right; discriminate|right; discriminate]. Qed.
+
+(** q_remove is a scan for the first entry whose key compares Eq *)
+Lemma q_remove_Some w sl q cb r : q_remove w sl q = Some (cb, r) ->
+  exists l1 e l2, q = l1 ++ e :: l2 /\ r = l1 ++ l2 /\ e_cb e = cb /\ key_eq w sl e /\
+                  Forall (fun x => ~ key_eq w sl x) l1.
+Proof.
+  revert cb r. induction q as [|a q IH]; intros cb r H; cbn [q_remove] in H; [discriminate|].
+  destruct (kcmp w sl (e_wt a) (e_slot a)) eqn:C.
+  - injection H as <- <-. exists [], a, q. repeat split; auto.
+  - destruct (q_remove w sl q) as [[cb' r']|] eqn:E; [|discriminate]. injection H as <- <-.
+    destruct (IH _ _ eq_refl) as (l1 & e & l2 & -> & -> & Hc & Hk & Hf).
+    exists (a :: l1), e, l2. repeat split; auto. constructor; [unfold key_eq; congruence|assumption].
+  - destruct (q_remove w sl q) as [[cb' r']|] eqn:E; [|discriminate]. injection H as <- <-.
+    destruct (IH _ _ eq_refl) as (l1 & e & l2 & -> & -> & Hc & Hk & Hf).
+    exists (a :: l1), e, l2. repeat split; auto. constructor; [unfold key_eq; congruence|assumption].
+Qed.
+
+Lemma q_remove_None w sl q : q_remove w sl q = None <-> Forall (fun x => ~ key_eq w sl x) q.
+Proof.
+  induction q as [|a q IH]; cbn [q_remove].
+  - split; auto.
+  - unfold key_eq at 1. destruct (kcmp w sl (e_wt a) (e_slot a)) eqn:C.
+    + split; [discriminate|]. intros H. inversion H; subst. unfold key_eq in *. congruence.
+    + destruct (q_remove w sl q) as [[cb' r']|] eqn:E.
+      * split; [discriminate|]. intros H. inversion H; subst. apply IH in H3. discriminate.
+      * split; [|reflexivity]. intros _. constructor; [unfold key_eq; congruence|apply IH; reflexivity].
+    + destruct (q_remove w sl q) as [[cb' r']|] eqn:E.
+      * split; [discriminate|]. intros H. inversion H; subst. apply IH in H3. discriminate.
+      * split; [|reflexivity]. intros _. constructor; [unfold key_eq; congruence|apply IH; reflexivity].
+Qed.
+
+Lemma q_mem_true w sl q : q_mem w sl q = true <-> exists e, In e q /\ key_eq w sl e.
+Proof.
+  unfold q_mem. rewrite existsb_exists. split; intros (e & Hi & He); exists e; split; auto.
+  - unfold key_eq. destruct (kcmp w sl (e_wt e) (e_slot e)); congruence.
+  - unfold key_eq in He. rewrite He. reflexivity.
+Qed.
+
+Lemma q_mem_false w sl q : q_mem w sl q = false <-> Forall (fun x => ~ key_eq w sl x) q.
+Proof.
+  rewrite Forall_forall. split.
+  - intros H e Hi He. assert (q_mem w sl q = true) by (apply q_mem_true; eauto). congruence.
+  - intros H. destruct (q_mem w sl q) eqn:E; [|reflexivity]. apply q_mem_true in E. destruct E as (e & Hi & He).
+    exfalso. eapply H; eauto.
+Qed.
+
+(** ** StronglySorted and append *)
+Lemma SS_app_inv {A} (R : A -> A -> Prop) l1 l2 : StronglySorted R (l1 ++ l2) ->
+  StronglySorted R l1 /\ StronglySorted R l2 /\ forall a b, In a l1 -> In b l2 -> R a b.
+Proof.
+  induction l1 as [|x l1 IH]; cbn [app]; intros H.
+  - repeat split; [constructor|assumption|intros a b []].
+  - inversion H as [|? ? Hs Hf]; subst. destruct (IH Hs) as (H1 & H2 & H3).
+    rewrite Forall_app in Hf. destruct Hf as [Hf1 Hf2]. repeat split.
+    + constructor; assumption.
+    + assumption.
+    + intros a b [->|Ha] Hb; [rewrite Forall_forall in Hf2; auto|auto].
+Qed.
+
+Lemma SS_app {A} (R : A -> A -> Prop) l1 l2 : StronglySorted R l1 -> StronglySorted R l2 ->
+  (forall a b, In a l1 -> In b l2 -> R a b) -> StronglySorted R (l1 ++ l2).
+Proof.
+  induction l1 as [|x l1 IH]; cbn [app]; intros H1 H2 H3; [assumption|].
+  inversion H1 as [|? ? Hs Hf]; subst. constructor.
+  - apply IH; auto. intros a b Ha Hb. apply H3; [right|]; assumption.
+  - rewrite Forall_app. split; [assumption|]. rewrite Forall_forall. intros b Hb. apply H3; [left; reflexivity|assumption].
+Qed.
+
+Lemma SS_remove_mid {A} (R : A -> A -> Prop) l1 x l2 : StronglySorted R (l1 ++ x :: l2) -> StronglySorted R (l1 ++ l2).
+Proof.
+  intros H. apply SS_app_inv in H. destruct H as (H1 & H2 & H3). inversion H2; subst.
+  apply SS_app; auto. intros a b Ha Hb. apply H3; [assumption|right; assumption].
+Qed.
+
+(** ** queues: every entry in the window of [now], strictly sorted by (tick, slot) *)
+Definition qok (now : Z) (q : list entry) : Prop := Forall (entry_ok now) q /\ StronglySorted (klt now) q.
+
+Lemma klt_trans now a b c : klt now a b -> klt now b c -> klt now a c.
+Proof. unfold klt. lia. Qed.
+Lemma klt_irrefl now a : ~ klt now a a.
+Proof. unfold klt. lia. Qed.
+Lemma klt_not_same now a b : klt now a b -> ~ same_key b (e_wt a) (e_slot a).
+Proof. unfold klt, same_key. intros H [E1 E2]. rewrite E1, E2 in H. lia. Qed.
+Lemma klt_not_same' now a b : klt now a b -> ~ same_key a (e_wt b) (e_slot b).
+Proof. unfold klt, same_key. intros H [E1 E2]. rewrite E1, E2 in H. lia. Qed.
+
+Lemma qok_nil now : qok now [].
+Proof. split; constructor. Qed.
+
+Lemma qok_cons_inv now a q : qok now (a :: q) -> entry_ok now a /\ qok now q /\ Forall (klt now a) q.
+Proof. intros [Hf Hs]. inversion Hf; subst. inversion Hs; subst. split; [assumption|split; [split; assumption|assumption]]. Qed.
+
+Lemma qok_app_inv now l1 l2 : qok now (l1 ++ l2) -> qok now l1 /\ qok now l2 /\ forall a b, In a l1 -> In b l2 -> klt now a b.
+Proof.
+  intros [Hf Hs]. rewrite Forall_app in Hf. destruct Hf. apply SS_app_inv in Hs. destruct Hs as (? & ? & ?).
+  split; [split; assumption|split; [split; assumption|assumption]].
+Qed.
+
+Lemma qok_remove_mid now l1 x l2 : qok now (l1 ++ x :: l2) -> qok now (l1 ++ l2).
+Proof.
+  intros [Hf Hs]. split; [|eapply SS_remove_mid; eauto].
+  rewrite Forall_app in *. destruct Hf as [H1 H2]. inversion H2; subst. split; assumption.
+Qed.
+
+(** in a sorted queue two entries with the same key are the same entry *)
+Lemma qok_key_unique now q a b : qok now q -> In a q -> In b q -> same_key a (e_wt b) (e_slot b) -> a = b.
+Proof.
+  intros [_ Hs]. induction Hs as [|x l Hs IH Hf]; intros Ha Hb Hk; [destruct Ha|].
+  rewrite Forall_forall in Hf. destruct Ha as [->|Ha], Hb as [->|Hb]; auto.
+  - exfalso. eapply klt_not_same'; eauto.
+  - exfalso. apply Hf in Ha. eapply klt_not_same; eauto.
+Qed.
+
+Section QueueOps.
+  Variable now : Z.
+  Hypothesis Hnow : 0 <= now.
+
+  Lemma key_eq_same w sl e : 0 <= w < M32 -> entry_ok now e -> (key_eq w sl e <-> same_key e w sl).
+  Proof.
+    intros Hw (He & _). unfold key_eq, same_key. rewrite kcmp_Eq_range by assumption. intuition congruence.
+  Qed.
+
+  (** *** insert *)
+  Lemma q_insert_spec w sl cb q : qok now q -> entry_ok now (w, sl, cb) ->
+    qok now (q_insert w sl cb q) /\
+    forall e, In e (q_insert w sl cb q) <-> e = (w, sl, cb) \/ (In e q /\ ~ same_key e w sl).
+  Proof.
+    intros Hq Hn. pose proof (entry_key_in _ _ Hn) as Kn. cbn [e_wt e_slot fst snd] in Kn.
+    induction q as [|a q IH]; cbn [q_insert].
+    - split; [split; [constructor; [assumption|constructor]|constructor; constructor]|]. intros e. cbn [In]. intuition.
+    - destruct (qok_cons_inv _ _ _ Hq) as (Ha & Hq' & Hlt). pose proof (entry_key_in _ _ Ha) as Ka.
+      rewrite Forall_forall in Hlt.
+      destruct (kcmp w sl (e_wt a) (e_slot a)) eqn:C.
+      + (* Eq: replace *)
+        apply (kcmp_Eq now Hnow) in C; [|assumption|assumption]. destruct C as [Ew Es].
+        assert (Hlt' : forall x, In x q -> klt now (w, sl, cb) x).
+        { intros x Hx. pose proof (Hlt x Hx) as K. unfold klt in *. cbn [e_wt e_slot fst snd]. rewrite Ew, Es. exact K. }
+        split.
+        * destruct Hq' as [Hf Hs]. split; constructor; try assumption. rewrite Forall_forall. exact Hlt'.
+        * intros e. cbn [In]. split.
+          -- intros [<-|He]; [left; reflexivity|]. right. split; [right; assumption|].
+             apply Hlt' in He. intros K. eapply klt_not_same in He. apply He. exact K.
+          -- intros [->|[[<-|He] K]]; [left; reflexivity| |right; assumption].
+             exfalso. apply K. split; symmetry; assumption.
+      + (* Lt: in front *)
+        apply (kcmp_Lt now Hnow) in C; [|assumption|assumption].
+        assert (Hna : klt now (w, sl, cb) a) by exact C.
+        assert (Hlt' : forall x, In x (a :: q) -> klt now (w, sl, cb) x).
+        { intros x [<-|Hx]; [assumption|]. eapply klt_trans; [exact Hna|auto]. }
+        split.
+        * destruct Hq as [Hf Hs]. split; constructor; try assumption. rewrite Forall_forall. exact Hlt'.
+        * intros e. change (In e ((w, sl, cb) :: a :: q)) with ((w, sl, cb) = e \/ In e (a :: q)). split.
+          -- intros [<-|He]; [left; reflexivity|]. right. split; [assumption|].
+             apply Hlt' in He. intros K. eapply klt_not_same in He. apply He. exact K.
+          -- intros [->|[He K]]; [left; reflexivity|right; assumption].
+      + (* Gt: further down *)
+        apply (kcmp_Gt now Hnow) in C; [|assumption|assumption].
+        assert (Han : klt now a (w, sl, cb)) by exact C.
+        destruct (IH Hq') as [[Hf' Hs'] Hin]. split.
+        * split; constructor; try assumption. rewrite Forall_forall. intros x Hx. apply Hin in Hx.
+          destruct Hx as [->|[Hx _]]; [assumption|auto].
+        * intros e. cbn [In]. rewrite Hin. split.
+          -- intros [<-|[->|[He K]]]; [|left; reflexivity|right; split; [right; assumption|assumption]].
+             right. split; [left; reflexivity|]. exact (klt_not_same' now a (w, sl, cb) Han).
+          -- intros [->|[[<-|He] K]]; [right; left; reflexivity|left; reflexivity|right; right; split; assumption].
+  Qed.
+
+  Lemma q_insert_fresh w sl cb q : qok now q -> entry_ok now (w, sl, cb) ->
+    (forall e, In e q -> ~ same_key e w sl) ->
+    forall e, In e (q_insert w sl cb q) <-> e = (w, sl, cb) \/ In e q.
+  Proof.
+    intros Hq Hn Hfr e. destruct (q_insert_spec w sl cb q Hq Hn) as [_ Hin]. rewrite Hin.
+    split; (intros [->|H]; [left; reflexivity|right]); [tauto|split; auto].
+  Qed.
+
+  (** *** remove *)
+  Lemma q_remove_spec_Some w sl q cb r : 0 <= w < M32 -> qok now q -> q_remove w sl q = Some (cb, r) ->
+    In (w, sl, cb) q /\ qok now r /\
+    (forall e, In e r <-> (In e q /\ ~ same_key e w sl)).
+  Proof.
+    intros Hw Hq H. apply q_remove_Some in H. destruct H as (l1 & e & l2 & -> & -> & Hc & Hk & Hf).
+    assert (He : entry_ok now e).
+    { destruct Hq as [Hq _]. rewrite Forall_forall in Hq. apply Hq. apply in_or_app. right. left. reflexivity. }
+    apply (key_eq_same w sl e Hw He) in Hk. destruct Hk as [E1 E2].
+    assert (Ee : e = (w, sl, cb)).
+    { destruct e as [[a b] c]. cbn [e_wt e_slot e_cb fst snd] in *. congruence. }
+    split; [apply in_or_app; right; left; exact Ee|].
+    split; [eapply qok_remove_mid; eauto|].
+    intros x. split.
+    - intros Hx. assert (Hx' : In x (l1 ++ e :: l2)).
+      { apply in_app_or in Hx. apply in_or_app. destruct Hx; [left|right; right]; assumption. }
+      split; [assumption|]. intros K.
+      assert (x = e).
+      { eapply qok_key_unique; eauto; [apply in_or_app; right; left; reflexivity|]. destruct K. split; congruence. }
+      subst x. destruct (qok_app_inv _ _ _ Hq) as (Q1 & Q2 & Q3). destruct (qok_cons_inv _ _ _ Q2) as (_ & _ & Q4).
+      rewrite Forall_forall in Q4. apply in_app_or in Hx. destruct Hx as [Hx|Hx].
+      + specialize (Q3 e e Hx ltac:(left; reflexivity)). eapply klt_irrefl; eauto.
+      + specialize (Q4 e Hx). eapply klt_irrefl; eauto.
+    - intros [Hx K]. apply in_app_or in Hx. apply in_or_app. destruct Hx as [Hx|[<-|Hx]]; auto.
+      exfalso. apply K. split; assumption.
+  Qed.
+
+  Lemma q_remove_spec_None w sl q : 0 <= w < M32 -> qok now q ->
+    (q_remove w sl q = None <-> forall e, In e q -> ~ same_key e w sl).
+  Proof.
+    intros Hw [Hf _]. rewrite q_remove_None. rewrite Forall_forall in *. split; intros H e He.
+    - rewrite <- key_eq_same by auto. auto.
+    - rewrite key_eq_same by auto. auto.
+  Qed.
+
+  Lemma q_remove_present w sl cb q : 0 <= w < M32 -> qok now q -> In (w, sl, cb) q ->
+    exists r, q_remove w sl q = Some (cb, r).
+  Proof.
+    intros Hw Hq Hi. destruct (q_remove w sl q) as [[cb' r]|] eqn:E.
+    - destruct (q_remove_spec_Some _ _ _ _ _ Hw Hq E) as (Hi' & _ & _).
+      assert ((w, sl, cb') = (w, sl, cb)) by (eapply qok_key_unique; eauto; split; reflexivity).
+      inversion H; subst. eauto.
+    - exfalso. rewrite q_remove_spec_None in E by assumption. eapply E; eauto. split; reflexivity.
+  Qed.
+
+  Lemma q_mem_spec w sl q : 0 <= w < M32 -> qok now q ->
+    (q_mem w sl q = true <-> exists e, In e q /\ same_key e w sl).
+  Proof.
+    intros Hw [Hf _]. rewrite q_mem_true. rewrite Forall_forall in Hf.
+    split; intros (e & Hi & He); exists e; split; auto; [rewrite <- key_eq_same|rewrite key_eq_same]; auto.
+  Qed.
+
+  (** *** split_off at the key (n + 1, 0) of [advance], n the step's new [now] *)
+  Lemma q_split_spec n q : qok now q -> now < n <= now + WIN ->
+    exists h t, q_split ((n + 1) mod M32) 0 q = (h, t) /\ q = h ++ t /\
+      Forall (fun e => Tof now (e_wt e) <= n) h /\ Forall (fun e => n < Tof now (e_wt e)) t.
+  Proof.
+    intros Hq Hn.
+    assert (Hk : key_in now ((n + 1) mod M32) 0).
+    { split; [unfold M32; lia|]. rewrite Tof_unique by (unfold M32, WIN in *; lia). lia. }
+    assert (HT : Tof now ((n + 1) mod M32) = n + 1) by (apply Tof_unique; unfold M32, WIN in *; lia).
+    induction q as [|a q IH]; cbn [q_split].
+    - exists [], []. repeat split; constructor.
+    - destruct (qok_cons_inv _ _ _ Hq) as (Ha & Hq' & Hlt). pose proof (entry_key_in _ _ Ha) as Ka.
+      assert (Hsl : 0 <= e_slot a) by (destruct Ha as (_ & ? & _); lia).
+      destruct (kcmp (e_wt a) (e_slot a) ((n + 1) mod M32) 0) eqn:C.
+      + exists [], (a :: q). repeat split; [constructor|].
+        apply (kcmp_Eq now Hnow) in C; [|assumption|assumption]. destruct C as [Ew Es].
+        assert (Tof now (e_wt a) = n + 1) by (rewrite Ew; exact HT).
+        constructor; [lia|]. rewrite Forall_forall in *. intros x Hx. specialize (Hlt x Hx). unfold klt in Hlt. lia.
+      + destruct (IH Hq') as (h & t & E & -> & Hh & Ht). rewrite E. exists (a :: h), t. repeat split; auto.
+        apply (kcmp_Lt now Hnow) in C; [|assumption|assumption]. unfold klt_key in C. rewrite HT in C.
+        constructor; [lia|assumption].
+      + exists [], (a :: q). repeat split; [constructor|].
+        apply (kcmp_Gt now Hnow) in C; [|assumption|assumption]. unfold klt_key in C. rewrite HT in C.
+        constructor; [lia|]. rewrite Forall_forall in *. intros x Hx. specialize (Hlt x Hx). unfold klt in Hlt. lia.
+  Qed.
+
+  (** entries beyond the new [now] stay in the window and keep their order after [set_now] *)
+  Lemma entry_ok_advance n e : now <= n -> entry_ok now e -> n < Tof now (e_wt e) -> entry_ok n e.
+  Proof.
+    intros Hn (H1 & H2 & H3 & H4) Hlt.
+    assert (E : Tof n (e_wt e) = Tof now (e_wt e)) by (apply Tof_stable; [lia|assumption|assumption]).
+    unfold entry_ok. rewrite E. repeat split; try tauto; lia.
+  Qed.
+
+  Lemma qok_advance n q : now <= n -> qok now q -> Forall (fun e => n < Tof now (e_wt e)) q -> qok n q.
+  Proof.
+    intros Hn [Hf Hs] Hlt. rewrite Forall_forall in *. split.
+    - rewrite Forall_forall. intros e He. apply entry_ok_advance; auto.
+    - assert (Heq : forall e, In e q -> Tof n (e_wt e) = Tof now (e_wt e)).
+      { intros e He. apply Tof_stable; [lia| |auto]. destruct (Hf e He) as (? & _). assumption. }
+      clear Hf Hlt. induction Hs as [|x l Hs IH Hfx]; constructor.
+      + apply IH. intros e He. apply Heq. right. assumption.
+      + rewrite Forall_forall in *. intros y Hy. specialize (Hfx y Hy). unfold klt in *.
+        rewrite (Heq x) by (left; reflexivity). rewrite (Heq y) by (right; assumption). exact Hfx.
+  Qed.
+
+End QueueOps.
